@@ -169,12 +169,61 @@ def run_history(impl, wd, name, crc, ops):
 RESET_MARK = bytes([127, 0, 0, 0, 0, 0, 0, 0, 4, 0, 0, 0, 6, 0, 0, 0])   # SEP(crc 0, len 4) + RESET
 
 
+def reset_insert(reset):
+    """bytes a checkpoint made during an online backup (stages 4-5) appends instead of truncating the log.  reset =
+    (b, dbfile) or (b, dbfile, True): the checkpoint was forced by file growth (_onresize logs a RESIZE record first:
+    SEP RESIZE, then SEP RESET) - the only way a RESIZE record can be FOLLOWED by savepoints in a log; the resize is to
+    the size the main file already has at that point"""
+    if len(reset) > 2 and reset[2]:
+        sz = os.path.getsize(reset[1])
+        return (bytes([127, 0, 0, 0, 0, 0, 0, 0, 20, 0, 0, 0, 4, 0, 0, 0]) + sz.to_bytes(8, "little") + sz.to_bytes(8, "little")
+                + RESET_MARK)
+    return RESET_MARK
+
+
+def special_corruptions(rng, wal, frames, sps):
+    """multi-byte corruptions aimed at the two places where the format lets a change of checksummed bytes pass
+    (C05_flip_in_segment: the escapes `crc = 0` and `reset mark seen by the scanner`); returns [(flips, class)]
+    - crc-zero-unchecked: stored checksum of a segment header -> 0, stored checksum of a synced WRITE record in it -> 0,
+      one payload byte changed (reported against the unmodified library; C05_crc_zero_unchecked_refuted)
+    - reset-mark-bypass: the bytes covered by one segment header overwritten by reset records, a segment header with
+      checksum 0 and a reset record (C05_reset_mark_bypass_refuted)"""
+    out = []
+    if not sps:
+        return out
+    last = sps[-1][0]
+    seps = [(p, int.from_bytes(wal[p + 4:p + 8], "little"), int.from_bytes(wal[p + 8:p + 12], "little")) for p, op, sz in frames if op == 127]
+    wr = [(p, sz) for p, op, sz in frames if op == 3 and sz - 20 >= 8 and p + sz <= last - 12 and int.from_bytes(wal[p + 4:p + 8], "little")]
+    for _ in range(min(2, len(wr))):
+        p, sz = wr[rng.below(len(wr))]
+        ps = max(q for q, c, ln in seps if q < p)
+        o = p + 20 + rng.below(sz - 20)
+        fl = [(ps + 4 + i, wal[ps + 4 + i]) for i in range(4) if wal[ps + 4 + i]] + \
+             [(p + 4 + i, wal[p + 4 + i]) for i in range(4) if wal[p + 4 + i]] + [(o, 0x55)]
+        out.append((fl, "crc-zero-unchecked"))
+    cand = [(p, ln) for p, c, ln in seps if c and ln >= 16 and (ln - 16) % 4 == 0 and p > 0 and p + 12 + ln <= last - 12]
+    for _ in range(min(2, len(cand))):
+        p, ln = cand[rng.below(len(cand))]
+        new = bytes([6, 0, 0, 0]) * ((ln - 16) // 4) + RESET_MARK
+        fl = [(p + 12 + i, wal[p + 12 + i] ^ new[i]) for i in range(ln) if wal[p + 12 + i] ^ new[i]]
+        out.append((fl, "reset-mark-bypass"))
+    return out
+
+
+def open_finding(run, cl):
+    """a reproduced defect of the format that is not (yet) listed in known_findings.json is reported as a violation only
+    when VERIF_WAL_OPEN=1; once listed (match on `class`) it is always reported and recognised as known"""
+    if os.environ.get("VERIF_WAL_OPEN") == "1":
+        return True
+    return any((kf.get("match") or {}).get("class") == cl for kf in vlib.known_findings(run.pid))
+
+
 def mk_case(src, dst, cut, flips, reset=None):
     """reset = (b, dbfile): the file pair a checkpoint taken during an online backup (stages 4-5) leaves when the
     log was wal[:b]: main file = everything up to b applied, log = wal[:b] + SEP RESET, then the log goes on"""
     os.makedirs(dst, exist_ok=True)
     raw = open(os.path.join(src, "db-wal"), "rb").read()
-    wal = bytearray(raw[:cut] if not reset else raw[:reset[0]] + RESET_MARK + raw[reset[0]:cut])
+    wal = bytearray(raw[:cut] if not reset else raw[:reset[0]] + reset_insert(reset) + raw[reset[0]:cut])
     for off, mask in flips:
         if off < len(wal):
             wal[off] ^= mask
@@ -315,7 +364,7 @@ def do_history(run, impl, model, wd, name, crc, ops, ncut, nflip, corpus_cases=N
     f = W.fields(out[0]) if out else {}
     want_sp = ",".join(str(e - 12) for e, _ in sps)
     if not (f.get("parse") == "ok" and f.get("roundtrip") == "true" and f.get("wf") == "true" and f.get("crc") == "true"
-            and f.get("layout") == "true"):
+            and f.get("layout") == "true" and f.get("fit") == "true"):
         run.broken.append("T2 correspondence: real log does not satisfy the model's well-formedness (%s): %s" % (name, out[0] if out else err))
     elif (crc & 1) and f.get("crcfull") != "true":
         run.broken.append("T2 correspondence: %s was taken with checksums on but holds a segment or WRITE record whose stored checksum is "
@@ -405,8 +454,44 @@ def do_history(run, impl, model, wd, name, crc, ops, ncut, nflip, corpus_cases=N
                 rep["recovering_crc"] = rcrc
             run.violation(rep, why)
 
-    for r in eval_cases(run, impl, model, wd, hist, cases, "c"):
+    results = eval_cases(run, impl, model, wd, hist, cases, "c")
+    for r in results:
         judge_case(r, r["rcrc"] != crc)
+    # --- the two escapes of C05_flip_in_segment, replayed on the library (checksums written and checked)
+    if corpus_cases is None and (crc & 1) and cls != "growth-checkpoint":
+        import zlib
+        basedb = open(os.path.join(d, "db"), "rb").read()
+        mains = {"%d:%08x" % (len(basedb), zlib.crc32(basedb) & 0xffffffff)}
+        ends = set(e for e, _ in sps)
+        for r in results:
+            if not r["flips"] and r["cut"] in ends and r["rcrc"] == crc and W.fields(r["impl_wal"]).get("rc") == "0":
+                mains.add(W.fields(r["impl_wal"]).get("main"))
+        spec = special_corruptions(rng, wal, frames, sps)
+        for r, (fl, cl) in zip(eval_cases(run, impl, model, wd, hist, [(len(wal), fl) for fl, _ in spec], "s"), spec):
+            run.dist("case_" + cl.replace("-", "_"))
+            run.case("%s|%d|%s|%s" % (" ".join(ops), crc, cl, r["flips"]), nontrivial=True)
+            t2 = t2_compare(r, crc)
+            if t2 and t2 != "skip":
+                run.broken.append("T2 correspondence: %s %s flips=%s: %s" % (name, cl, fl[:4], t2)) if len(run.broken) < 8 else None
+            else:
+                run.cov["traces_validated_against_impl"] += 1
+            ok, why = oracle_flip(hist, r)
+            fi = W.fields(r["impl_wal"])
+            if ok and fi.get("rc") == "0" and fi.get("main") not in mains:
+                ok, why = False, ("corrupted log (checksums on) opens without error and the main file after recovery is not the "
+                                  "main file of any savepoint state (nor the untouched one)")
+            if ok:
+                run.dist(cl.replace("-", "_") + "_harmless_or_detected")
+                continue
+            run.dist("open_finding_%s_reproduced" % cl.replace("-", "_"))
+            if not open_finding(run, cl):
+                continue
+            run.cov.setdefault("violations_by_class", {})
+            run.cov["violations_by_class"][cl] = run.cov["violations_by_class"].get(cl, 0) + 1
+            if run.cov["violations_by_class"][cl] <= 1:
+                run.violation({"ops": ops, "crc": crc, "cut": len(wal), "flips": [list(x) for x in fl], "class": cl,
+                               "impl": r["impl_rec"][:2000], "impl_recovery_step": r["impl_wal"][:200],
+                               "savepoint_ends": [e for e, _ in sps], "base_class": cls}, "%s: %s" % (cl, why))
     # --- cross-configuration recoveries: the outcome of a recovery is a function of the two files, not of the options
     # of the process that happens to open them (Proto.recover_open, C05_recovery_independent_of_recovering_config).
     # Same cuts, same oracle, recovering process with the other log-buffer size and/or the other checksum setting.
@@ -465,8 +550,69 @@ def do_history(run, impl, model, wd, name, crc, ops, ncut, nflip, corpus_cases=N
                             rep["recovering_crc"] = r["rcrc"]
                         run.violation(rep, "log with a reset mark at %d%s: %s" % (
                             b, ", recovered by a process opened with [%s]" % W.cfg_text(r["rcrc"]) if cross else "", why))
+            # --- the same with a growth-forced checkpoint: SEP RESIZE, SEP RESET, then the log goes on - a RESIZE record
+            # followed by savepoints (recover_mode 1), and the same log inside an online-backup image (recover_mode 2)
+            if corpus_cases is None:
+                h3 = dict(hist, reset=(b, os.path.join(pre, "db"), True))
+                for r in eval_cases(run, impl, model, wd, h3, [(c, []) for c in sorted(pts[:nreset])[::3]] + [(len(wal), [])], "z%d" % b):
+                    run.dist("case_reset_mark_after_resize_record")
+                    run.case("%s|%d|resize+reset%d|%s" % (" ".join(ops), crc, b, r["cut"]), nontrivial=True)
+                    t2 = t2_compare(r, crc)
+                    if t2 and t2 != "skip":
+                        run.broken.append("T2 correspondence: %s resize+reset@%d cut=%d crc=%d: %s" % (name, b, r["cut"], crc, t2)) if len(run.broken) < 8 else None
+                    else:
+                        run.cov["traces_validated_against_impl"] += 1
+                    ok, why, allowed = oracle_cut(hist, r)
+                    if not ok:
+                        run.cov.setdefault("violations_by_class", {})
+                        run.cov["violations_by_class"]["reset-mark"] = run.cov["violations_by_class"].get("reset-mark", 0) + 1
+                        if run.cov["violations_by_class"]["reset-mark"] <= 2:
+                            run.violation({"ops": ops, "crc": crc, "cut": r["cut"], "flips": [], "reset_at": b, "resize_before_mark": True,
+                                           "class": "reset-mark", "impl": r["impl_rec"][:2000], "allowed": allowed,
+                                           "savepoint_ends": [e for e, _ in sps], "base_class": cls},
+                                          "log with a RESIZE record and a reset mark at %d (growth during an online backup): %s" % (b, why))
+                if cls != "growth-checkpoint":
+                    image_case(run, impl, model, wd, hist, wal, b, os.path.join(pre, "db"))
             shutil.rmtree(pre, ignore_errors=True)
     shutil.rmtree(d, ignore_errors=True)
+
+
+def image_case(run, impl, model, wd, hist, wal, b, predb):
+    """recover_mode 2: an online-backup image whose log part holds a RESIZE record and a reset mark followed by
+    savepoints (the file grew while the backup was copying the log).  main part = the main file the log applies to,
+    log part = the whole log, trailer.  The image must open to the state at the last savepoint of its log."""
+    import zlib
+    d, crc, sps = hist["dir"], hist["crc"], hist["sps"]
+    main = open(os.path.join(d, "db"), "rb").read()
+    if len(main) % 4096 or not sps:
+        return
+    log = wal[:b] + reset_insert((b, predb, True)) + wal[b:]
+    img = main + log + len(main).to_bytes(8, "little") + (0xBACBAC69).to_bytes(4, "little")
+    dst = os.path.join(wd, "%s-img%d" % (hist["name"], b))
+    for sub in ("m", "i"):
+        os.makedirs(os.path.join(dst, sub), exist_ok=True)
+    open(os.path.join(dst, "m", "bkp"), "wb").write(img)
+    open(os.path.join(dst, "i", "db"), "wb").write(img)
+    rc, om, err = vlib.run_lines(W.big_stack(model), "img %s/m %d\n" % (dst, crc), timeout=300)
+    rc, oi, err = vlib.run_lines(impl, "rec %s/i %d -1\n" % (dst, crc))
+    fm, fi = W.fields(om[0]) if om else {}, W.fields(oi[0]) if oi else {}
+    run.dist("case_image_with_resize_and_reset_mark")
+    run.case("%s|%d|image%d" % (" ".join(hist["ops"]), crc, b), nontrivial=True)
+    after = open(os.path.join(dst, "i", "db"), "rb").read() if os.path.exists(os.path.join(dst, "i", "db")) else b""
+    got = "%d:%08x" % (len(after), zlib.crc32(after) & 0xffffffff)
+    if fm.get("split") in (None, "no") or fm.get("rc") != fi.get("rc") or (fi.get("rc") == "0" and fm.get("main") != got):
+        if len(run.broken) < 8:
+            run.broken.append("T2 correspondence (Backup.open_image): image with RESIZE + reset mark at %d of %s: model %s | impl %s main file after open %s" % (
+                b, hist["name"], (om or [""])[0][:120], (oi or [""])[0][:100], got))
+    else:
+        run.cov["traces_validated_against_impl"] += 1
+    want = sps[-1][1]
+    if fi.get("exit") != "0" or fi.get("rc") != "0" or (want is not None and fi.get("dump") != want):
+        run.violation({"ops": hist["ops"], "crc": crc, "cut": len(wal), "flips": [], "reset_at": b, "resize_before_mark": True, "image": True,
+                       "class": "image-reset-mark", "impl": (oi or [""])[0][:2000], "savepoint_ends": [e for e, _ in sps]},
+                      "online-backup image whose log holds a RESIZE record and a reset mark at %d followed by savepoints does not open to "
+                      "the state at its last savepoint (%s)" % (b, "rc=%s exit=%s" % (fi.get("rc"), fi.get("exit"))))
+    shutil.rmtree(dst, ignore_errors=True)
 
 
 def check(run):
@@ -529,8 +675,14 @@ def replay(run, path):
             shutil.copyfile(os.path.join(d, "db"), os.path.join(pre, "db"))
             open(os.path.join(pre, "db-wal"), "wb").write(open(os.path.join(d, "db-wal"), "rb").read()[:b])
             vlib.run_lines(impl, "wal %s %d\n" % (pre, r["crc"]))
-            hist["reset"] = (b, os.path.join(pre, "db"))
-            print("reset mark (SEP+RESET) inserted at log offset", b, "; main file = recovery of the first", b, "bytes")
+            hist["reset"] = (b, os.path.join(pre, "db"), bool(r.get("resize_before_mark")))
+            print("reset mark (%sSEP+RESET) inserted at log offset" % ("SEP+RESIZE, " if r.get("resize_before_mark") else ""), b,
+                  "; main file = recovery of the first", b, "bytes")
+            if r.get("image"):
+                n0 = len(run.violations)
+                image_case(run, impl, model, wd, hist, open(os.path.join(d, "db-wal"), "rb").read(), b, os.path.join(pre, "db"))
+                print("online-backup image built from the base main file + that log:", "VIOLATED" if len(run.violations) > n0 else "holds")
+                return 1 if len(run.violations) > n0 else 0
         rcrc = r.get("recovering_crc", r["crc"])
         res = eval_cases(run, impl, model, wd, hist, [(r["cut"], [tuple(x) for x in r["flips"]], rcrc)], "r")[0]
         ok, why = (oracle_cut(hist, res)[:2] if not r["flips"] else oracle_flip(hist, res))
